@@ -14,6 +14,7 @@ import itertools
 
 import numpy as np
 
+from checks.common import relayout, xf_build, xf_names
 from qmc import gen as G
 from qmc import oracle as O
 from qmc.loader import load
@@ -182,6 +183,12 @@ def cases(tier, seed):
     for (m, n) in ((65, 3), (70, 4), (130, 2), (3, 70), (40, 40)):
         for mode in ("LU", "LUP"):
             out.append({"key": f"generic-large/m={m}/n={n}/{mode}", "cls": "generic", "m": m, "n": n, "row": 0, "mode": mode})
+    # unusual-but-legal variants (component supports, modulus ties everywhere, gradings, circulant/Toeplitz, special matrices, layouts)
+    for m in range(1, 5):
+        for n in range(1, 5):
+            for nm in xf_names(m, n):
+                for mode in ("LU", "LUP"):
+                    out.append({"key": f"xf/m={m}/n={n}/{nm}/{mode}", "cls": "xf", "m": m, "n": n, "xf": nm, "mode": mode})
     GM = 5 if tier == "quick" else 6
     rows = 1 if tier == "quick" else 4
     for m in range(1, GM + 1):
@@ -329,6 +336,9 @@ def run_case(case, seed):
                 if not coef.any():
                     coef[0] = 0.5
                 A[i] = A[i] + O.qmul(np.broadcast_to(coef, (n, 4)), R_[t])
+    elif cls == "xf":
+        fill = G.Fill(seed, stream=hash_tag(case["key"].rsplit("/", 1)[0]))
+        A, lay = xf_build(case["xf"], m, n, fill)
     elif cls == "tie":
         fill = G.Fill(seed, stream=hash_tag(case["key"]))
         A = fill.quat(m, n, bits=2, lo=-8, hi=8)
@@ -343,6 +353,8 @@ def run_case(case, seed):
         fill = G.Fill(seed + 1000 * case["row"], stream=hash_tag(case["key"]))
         A = fill.quat(m, n, bits=4, lo=-40, hi=40)
     Aq = G.to_quat(A)
+    if cls == "xf":
+        Aq = relayout(Aq, lay)
     before = Aq.tobytes()
     ok, res = call(lu, Aq, return_p=(mode == "LUP"))
     fails = []
@@ -355,6 +367,8 @@ def run_case(case, seed):
                 # any loud failure is accepted by the property; record the type
                 pass
             path = "raised:" + type(res).__name__
+        elif cls == "xf" and any(O.rank(A[:, : j + 1]) < j + 1 for j in range(N)):
+            path = "raised:" + type(res).__name__  # some leading column block is rank deficient: no LU with row pivoting exists
         else:
             fails.append(fail("unexpected_exception", f"{type(res).__name__}: {res}", **tags))
     else:
@@ -378,7 +392,7 @@ def run_case(case, seed):
         "states": [path or digest(A, mode)],
         "transitions": (len(path.split(",")) if (path and path.startswith("swaps=")) else 1),
         "traces": traces,
-        "path": path if cls in ("forced", "sing", "rankprofile") else None,
+        "path": path if cls in ("forced", "sing", "rankprofile") else (f"xf:{path}" if cls == "xf" and path else None),
         "sample": {"A": A, "mode": mode, "returned": ok},
     }
 
